@@ -107,8 +107,8 @@ def obligations_of(repo, tr):
                 out.append(Obligation(ev, 'CPSR.%s (%d bit%s)' % (d['flag'], w, '' if w == 1 else 's'), d['value'], 0, 2 ** w - 1))
         elif k == 'SysWrite':
             p = d['path']
-            if p in ('changed_registers', 'event_register'):
-                continue
+            if p in ('changed_registers', 'event_register') or (d['value'][0] == 'const' and isinstance(d['value'][1], bool)):
+                continue       # bookkeeping flags; a boolean constant is not a 32-bit sink value
             if p.endswith('.value') or '.' not in p:
                 wide = 64 if (p.endswith('_64') or p in ('httbr', 'vttbr')) else 32
                 out.append(Obligation(ev, 'system register %s' % p, d['value'], 0, 2 ** wide - 1))
